@@ -49,9 +49,11 @@ theorem sinv_step (T : Int) (st : St) (op : Op) (hi : SInv T st) (hT : T ≤ op.
     | result s te now => exact hop
     | pump now => trivial
     | remove id u now => trivial
+    | setPaused b now => trivial
   have hdts : AllC (IStart op.now) (step st op).1.dts := by
     intro d' hd'
-    rcases step_pred st op (stepRel_RStart op.now) hall' hopT d' hd' with ⟨d, hd, r⟩ | ⟨p, hp, r⟩
+    rcases step_pred st op (stepRel_RStart op.now) hall' hopT (fun b _ _ d _ => rstart_setq op.now b d) d' hd'
+      with ⟨d, hd, r⟩ | ⟨p, hp, r⟩
     · exact r (hall' d hd)
     · apply r
       simp only [IStart, newDt]; omega
@@ -67,6 +69,8 @@ theorem sinv_step (T : Int) (st : St) (op : Op) (hi : SInv T st) (hT : T ≤ op.
   | remove id u now =>
     refine ⟨?_, ?_, hdts⟩ <;>
       (simp only [step, removeOp]; split <;> (try split) <;> simp only [Op.now] at hT ⊢ <;> omega)
+  | setPaused b now =>
+    refine ⟨?_, ?_, hdts⟩ <;> (simp only [step, setPausedOp, Op.now] at hT ⊢; omega)
 
 theorem sinv_run (ops : List Op) : ∀ (T : Int) (st : St), SInv T st → WF T ops →
     ∃ T', SInv T' (run st ops) := by
@@ -199,6 +203,10 @@ theorem ids_add (st : St) (p : AddP) (now : Int) :
     · simp [idsOf, newDt]
 
 
+theorem ids_setq (st : St) (b : Bool) : idsOf (setPausedOp st b).dts = idsOf st.dts := by
+  unfold setPausedOp
+  exact ids_map _ _ (fun d _ => (setQuiet_eq b d).1)
+
 theorem ids_step (st : St) (op : Op) :
     idsOf (step st op).1.dts = idsOf st.dts ∨
     (∃ p now, op = .add p now ∧ st.dts.any (fun d => d.id == p.id) = false ∧
@@ -215,6 +223,7 @@ theorem ids_step (st : St) (op : Op) :
   | result s te now => left; exact ids_result st s te now
   | pump now => left; exact ids_pump st now
   | remove id u now => left; exact ids_remove st id u now
+  | setPaused b now => left; exact ids_setq st b
 
 theorem not_mem_ids_of_any {l : List Dt} {i : Nat} (h : l.any (fun d => d.id == i) = false) : i ∉ idsOf l := by
   intro hm
@@ -278,6 +287,7 @@ theorem stepRel_RM (now : Int) : StepRel now (fun _ => True) (fun _ => True) RM 
   start := by
     intro d _ hf _ hr
     apply rm_live hr <;> simp [startSelf, trigSelf, noteTriggered, markTriggered, noteStarted, hf]
+    split <;> omega
   remove := by
     intro d _ hr
     apply rm_live hr <;> simp [removeDt]
@@ -290,6 +300,14 @@ theorem stepRel_RM (now : Int) : StepRel now (fun _ => True) (fun _ => True) RM 
     · apply rm_live hr <;> simp
     · apply rm_live hr <;> simp
   disarm := by intro d _ hr _ _; apply rm_live hr <;> simp
+
+theorem rm_setq (b : Bool) (d : Dt) : RM d (setQuiet b d) := by
+  have h := setQuiet_eq b d
+  exact ⟨h.1, h.2.2.2.1, h.2.2.2.2.1, h.2.2.2.2.2.1, h.2.2.2.2.2.2.1, h.2.2.2.2.2.2.2.2.2.1,
+    h.2.2.2.2.2.2.2.2.2.2.1, by rw [h.2.2.2.2.2.2.2.2.2.2.2.1]; exact Nat.le_refl _,
+    by rw [h.2.2.2.2.2.2.2.2.2.2.2.2.1]; exact Nat.le_refl _,
+    by rw [h.2.2.2.2.2.2.2.2.2.2.2.2.2.1]; exact Nat.le_refl _,
+    by rw [h.2.2.2.2.2.2.2.2.2.2.2.2.2.2.1]; exact Nat.le_refl _, h.2.2.2.2.2.2.2.2.2.2.2.2.2.2.2.2⟩
 
 /-- Two step relations (with trivial side conditions) hold together. -/
 theorem stepRel_and {now : Int} {R1 R2 : Dt → Dt → Prop}
@@ -377,6 +395,7 @@ theorem nodup_preModel (st : St) (op : Op) (h : (idsOf st.dts).Nodup) : (idsOf (
   | result s te now => exact h
   | pump now => exact h
   | remove id u now => exact h
+  | setPaused b now => exact h
 
 theorem ids_preModel (st : St) (op : Op) : idsOf (step st op).1.dts = idsOf (preModel st op) := by
   cases op with
@@ -389,11 +408,13 @@ theorem ids_preModel (st : St) (op : Op) : idsOf (step st op).1.dts = idsOf (pre
   | result s te now => exact ids_result st s te now
   | pump now => exact ids_pump st now
   | remove id u now => exact ids_remove st id u now
+  | setPaused b now => exact ids_setq st b
 
 /-- The step relates the downtimes it works on to the resulting ones position by position. -/
 theorem pw_step {R : Dt → Dt → Prop} (st : St) (op : Op)
     (sr : StepRel op.now (fun _ => True) (fun _ => True) R) (hid : ∀ a b, R a b → b.id = a.id)
-    (hnd : (idsOf st.dts).Nodup) : Pw R (preModel st op) (step st op).1.dts := by
+    (hnd : (idsOf st.dts).Nodup) (hq : ∀ b d, R d (setQuiet b d)) :
+    Pw R (preModel st op) (step st op).1.dts := by
   apply forall2_of_both hid _ _ (ids_preModel st op) (nodup_preModel st op hnd)
   cases op with
   | add p now =>
@@ -408,6 +429,11 @@ theorem pw_step {R : Dt → Dt → Prop} (st : St) (op : Op)
   | result s te now => exact both_result sr.toAddRel.toTrigRel st s te trivial (allc_trivial _)
   | pump now => exact both_pump sr st (allc_trivial _)
   | remove id u now => exact both_remove sr st id u (allc_trivial _)
+  | setPaused b now => exact both_setq st b (fun d _ => hq b d) (allc_trivial _)
+
+theorem pw_stepRM (st : St) (op : Op) (hnd : (idsOf st.dts).Nodup) :
+    Pw RM (preModel st op) (step st op).1.dts :=
+  pw_step st op (stepRel_RM op.now) (fun a b r => r.1) hnd rm_setq
 
 /-! ### What the specification's observation functions read -/
 
@@ -507,8 +533,8 @@ def V (sd : SDt) (d : Dt) : Prop :=
 
 def RelS (sp : SpecSt) (st : St) : Prop :=
   sp.kind = st.kind ∧ sp.checked = st.lastExec.isSome ∧ (sp.checked = true → sp.state = st.state) ∧
-  (sp.checked = false → st.state = 3) ∧ sp.since = st.lastStateChange ∧ sp.startNext = st.startNext ∧
-  Pw V sp.dts st.dts
+  (sp.checked = false → st.state = 3) ∧ sp.since = st.lastStateChange ∧
+  (sp.startNext = st.startNext ∧ sp.paused = st.paused) ∧ Pw V sp.dts st.dts
 
 theorem findDt_none_of_not_mem {l : List Dt} {i : Nat} (h : i ∉ idsOf l) : findDt l i = none := by
   unfold findDt
@@ -642,6 +668,7 @@ theorem predOf_cnt (st : St) (op : Op) (hnd : (idsOf st.dts).Nodup) (ev : Nat) {
   | result s te now => exact hin hd
   | pump now => exact hin hd
   | remove id u now => exact hin hd
+  | setPaused b now => exact hin hd
 
 /-- The events the observation attributes to an id are the counter increments of that downtime. -/
 theorem evCount_pair (st : St) (op : Op) (hnd : (idsOf st.dts).Nodup) (ev : Nat)
@@ -662,8 +689,8 @@ theorem obsTrig_pair (st : St) (op : Op) (hnd : (idsOf st.dts).Nodup) {d d' : Dt
 
 /-- The reader's view of a downtime after the operation agrees with the model's new downtime. -/
 theorem after_V (st : St) (op : Op) (hnd : (idsOf st.dts).Nodup) {sd : SDt} {d d' : Dt}
-    (hd : d ∈ preModel st op) (hd' : d' ∈ (step st op).1.dts) (v : V sd d) (r : RM d d') :
-    V (SDt.after (stepObs st op).2 sd) d' := by
+    (hd : d ∈ preModel st op) (hd' : d' ∈ (step st op).1.dts) (v : V sd d) (r : RM d d') (q : Bool) :
+    V (SDt.after q (stepObs st op).2 sd) d' := by
   obtain ⟨v1, v2, v3, v4, v5, v6, v7, v8, v9, v10, v11⟩ := v
   obtain ⟨r1, r2, r3, r4, r5, r6, r7, r8, r9, _, _, r12⟩ := r
   have hs : evCount (stepObs st op).2 1 d.id = d'.starts - d.starts :=
@@ -713,31 +740,33 @@ theorem pw_pre (sp : SpecSt) (st : St) (op : Op) (hp : Pw V sp.dts st.dts) (hnd 
   | result s te now => exact hp
   | pump now => exact hp
   | remove id u now => exact hp
+  | setPaused b now => exact hp
 
 /-- **Sync.**  After an operation of the model, the specification's bookkeeping computed from the model's
     observation agrees with the new model state. -/
 theorem relS_step (sp : SpecSt) (st : St) (op : Op) (hrel : RelS sp st) (hnd : (idsOf st.dts).Nodup) :
     RelS (specNext sp op (stepObs st op).2) (stepObs st op).1 := by
-  obtain ⟨h1, h2, h3, h4, h5, h6, h7⟩ := hrel
-  have hdts : Pw V ((preDts sp op (stepObs st op).2).map (SDt.after (stepObs st op).2)) (step st op).1.dts := by
-    apply pw_chain _ _ _ _ (pw_pre sp st op h7 hnd) (pw_step st op (stepRel_RM op.now) (fun a b r => r.1) hnd)
+  obtain ⟨h1, h2, h3, h4, h5, ⟨h6, h6p⟩, h7⟩ := hrel
+  have hdts : Pw V ((preDts sp op (stepObs st op).2).map (SDt.after sp.paused (stepObs st op).2)) (step st op).1.dts := by
+    apply pw_chain _ _ _ _ (pw_pre sp st op h7 hnd)
+      (pw_stepRM st op hnd)
     intro sd d d' _ hd hd' v r
-    exact after_V st op hnd hd hd' v r
+    exact after_V st op hnd hd hd' v r sp.paused
   rw [stepObs_fst]
   cases op with
   | add p now =>
-    refine ⟨?_, ?_, ?_, ?_, ?_, ?_, hdts⟩ <;> simp only [specNext, step, addOp] <;> split <;> assumption
+    refine ⟨?_, ?_, ?_, ?_, ?_, ⟨?_, ?_⟩, hdts⟩ <;> simp only [specNext, step, addOp] <;> split <;> assumption
   | result s te now =>
     by_cases hs : stale st te now = true
     · have hrc : (stepObs st (.result s te now)).2.rc = 0 := by simp [stepObs_rc, step, resultOp, hs]
       have hst : (step st (.result s te now)).1 = st := by simp [step, resultOp, hs]
       rw [hst] at hdts ⊢
       simp only [specNext, hrc]
-      exact ⟨h1, h2, h3, h4, h5, h6, hdts⟩
+      exact ⟨h1, h2, h3, h4, h5, ⟨h6, h6p⟩, hdts⟩
     · have hs' : stale st te now = false := by simpa using hs
       have hrc : (stepObs st (.result s te now)).2.rc = 1 := by simp [stepObs_rc, step, resultOp, hs']
       simp only [specNext, hrc, beq_self_eq_true, if_true]
-      refine ⟨?_, ?_, ?_, ?_, ?_, ?_, hdts⟩
+      refine ⟨?_, ?_, ?_, ?_, ?_, ⟨?_, ?_⟩, hdts⟩
       · simpa [step, resultOp, hs'] using h1
       · simp [step, resultOp, hs']
       · intro _; simp [step, resultOp, hs']
@@ -747,12 +776,16 @@ theorem relS_step (sp : SpecSt) (st : St) (op : Op) (hrel : RelS sp st) (hnd : (
         | true => simp [h3 hc]
         | false => simp [h4 hc]
       · simpa [step, resultOp, hs'] using h6
+      · simpa [step, resultOp, hs'] using h6p
   | pump now =>
-    refine ⟨?_, ?_, ?_, ?_, ?_, ?_, hdts⟩ <;> simp only [specNext, step, pumpOp, h6] <;> split <;>
+    refine ⟨?_, ?_, ?_, ?_, ?_, ⟨?_, ?_⟩, hdts⟩ <;> simp only [specNext, step, pumpOp, h6] <;> split <;>
       first | assumption | rfl
   | remove id u now =>
-    refine ⟨?_, ?_, ?_, ?_, ?_, ?_, hdts⟩ <;> simp only [specNext, step, removeOp] <;> split <;>
+    refine ⟨?_, ?_, ?_, ?_, ?_, ⟨?_, ?_⟩, hdts⟩ <;> simp only [specNext, step, removeOp] <;> split <;>
       (try split) <;> assumption
+  | setPaused b now =>
+    refine ⟨?_, ?_, ?_, ?_, ?_, ⟨?_, ?_⟩, hdts⟩ <;> simp only [specNext, step, setPausedOp] <;>
+      first | assumption | rfl
 
 /-! ### The clauses on the model's own trace -/
 
@@ -793,7 +826,8 @@ def REv (now : Int) (d d' : Dt) : Prop :=
   (d.trigger ≠ 0 → d'.trigger = d.trigger) ∧
   d'.remEv = d.remEv + (if d.removed = false ∧ d'.removed = true then 1 else 0) ∧
   (d'.ends ≠ d.ends → d.removed = false ∧ d'.removed = true) ∧
-  (d.removed = false → d'.removed = true → 0 < d.trigger → d.trigger ≤ now → d'.ends = d.ends + 1) ∧
+  (d.removed = false → d'.removed = true → 0 < d.trigger → d.trigger ≤ now →
+    d'.ends = d.ends + (if d'.quiet then 0 else 1)) ∧
   (d.trigger = 0 → d'.trigEv = d.trigEv → d'.trigger = 0 ∧ d'.ends = d.ends)
 
 theorem rev_live_same {now : Int} {d d' : Dt} (hr : d.removed = false) (hr' : d'.removed = false)
@@ -874,7 +908,7 @@ theorem stepRel_REv (now : Int) : StepRel now (fun _ => True) (fun _ => True) (R
     · simp [removeDt, hr]
     · intro _; exact ⟨hr, rfl⟩
     · intro _ _ h1 h2
-      simp [removeDt, isTriggered, h1, h2]
+      cases hq : d.quiet <;> simp [removeDt, isTriggered, h1, h2, hq]
     · intro h0 _
       refine ⟨h0, ?_⟩
       simp [removeDt, isTriggered, h0]
@@ -887,11 +921,85 @@ theorem stepRel_REv (now : Int) : StepRel now (fun _ => True) (fun _ => True) (R
     · apply rev_live_same hr <;> simp [hr]
   disarm := by intro d _ hr _ _; apply rev_live_same hr <;> simp [hr]
 
+/-- Everything but `setPaused` keeps the pause mirror. -/
+def RQuiet (d d' : Dt) : Prop := d'.id = d.id ∧ d'.quiet = d.quiet ∧ (d.removed = true → d'.removed = true)
+
+theorem stepRel_RQuiet (now : Int) : StepRel now (fun _ => True) (fun _ => True) RQuiet where
+  refl := fun _ => ⟨rfl, rfl, id⟩
+  trans := fun a b c h g => ⟨g.1.trans h.1, g.2.1.trans h.2.1, fun ha => g.2.2 (h.2.2 ha)⟩
+  ctx := fun _ _ _ _ => trivial
+  trig := fun _ _ _ _ _ hr => ⟨rfl, rfl, fun h => by rw [hr] at h; cases h⟩
+  startT := fun _ _ _ _ _ => trivial
+  start := fun _ _ _ _ hr => ⟨rfl, rfl, fun h => by rw [hr] at h; cases h⟩
+  setup := fun _ _ hr => ⟨rfl, rfl, fun h => by rw [hr] at h; cases h⟩
+  addTrig := by
+    intro c x _ hr; unfold addTrigger
+    split <;> exact ⟨rfl, rfl, fun h => by rw [hr] at h; cases h⟩
+  remove := fun _ _ _ => ⟨rfl, rfl, fun _ => rfl⟩
+  disarm := fun _ _ hr _ _ => ⟨rfl, rfl, fun h => by rw [hr] at h; cases h⟩
+
+/-- A downtime removed by the operation carries the pause mirror it had before. -/
+theorem quiet_pair (st : St) (op : Op) (hnd : (idsOf st.dts).Nodup) {d d' : Dt} (hd : d ∈ preModel st op)
+    (hd' : d' ∈ (step st op).1.dts) (hid : d'.id = d.id) (hr : d.removed = false) (hr' : d'.removed = true) :
+    d'.quiet = d.quiet := by
+  have hnd' := nodup_step st op hnd
+  have key : (∃ d'' ∈ (step st op).1.dts, RQuiet d d'') → d'.quiet = d.quiet := by
+    rintro ⟨d'', hd'', r⟩
+    have : d'' = d' := eq_of_id hnd' hd'' hd' (by rw [r.1, hid])
+    rw [← this]; exact r.2.1
+  cases op with
+  | setPaused b now =>
+    exfalso
+    simp only [step, setPausedOp] at hd'
+    obtain ⟨y, hy, rfl⟩ := List.mem_map.mp hd'
+    have hyd : y = d := eq_of_id hnd hy hd (by rw [← (setQuiet_eq b y).1]; exact hid)
+    rw [(setQuiet_eq b y).2.1, hyd, hr] at hr'
+    cases hr'
+  | add p now =>
+    apply key
+    simp only [preModel] at hd
+    simp only [step]
+    split at hd
+    · rename_i hany
+      refine ⟨d, ?_, rfl, rfl, id⟩
+      simp [addOp, hany]; exact hd
+    · rename_i hany
+      have hany' : st.dts.any (fun d => d.id == p.id) = false := by simpa using hany
+      exact (both_add_tail (stepRel_RQuiet now).toAddRel st p hany' (allc_trivial _)
+        (opT_trivial st (.add p now))).1 d hd
+  | result s te now =>
+    exact key ((both_result (stepRel_RQuiet now).toAddRel.toTrigRel st s te trivial (allc_trivial _)).1 d hd)
+  | pump now => exact key ((both_pump (stepRel_RQuiet now) st (allc_trivial _)).1 d hd)
+  | remove id u now => exact key ((both_remove (stepRel_RQuiet now) st id u (allc_trivial _)).1 d hd)
+
 /-- Everything the clause proofs need to know about one downtime across the operation. -/
 def RAll (now : Int) (d d' : Dt) : Prop := RM d d' ∧ RTrig now d d' ∧ RWin now d d' ∧ REv now d d'
 
 theorem stepRel_RAll (now : Int) : StepRel now (fun _ => True) (fun _ => True) (RAll now) :=
   stepRel_and (stepRel_RM now) (stepRel_and (stepRel_RTrig now) (stepRel_and (stepRel_RWin now) (stepRel_REv now)))
+
+theorem rwin_setq (now : Int) (b : Bool) (d : Dt) : RWin now d (setQuiet b d) := by
+  have h := setQuiet_eq b d
+  refine ⟨h.2.2.2.2.1, h.2.2.2.2.2.1, by rw [h.2.2.2.2.2.2.2.2.2.2.2.2.2.1]; exact Nat.le_refl _, ?_⟩
+  rw [h.2.2.2.2.2.2.2.2.2.2.2.2.2.1]
+  exact fun hh => absurd hh (Nat.lt_irrefl _)
+
+theorem rev_setq (now : Int) (b : Bool) (d : Dt) : REv now d (setQuiet b d) := by
+  have h := setQuiet_eq b d
+  refine ⟨h.2.2.2.2.2.2.2.2.2.2.2.2.2.2.2.2, by rw [h.2.2.2.2.2.2.2.2.2.2.2.2.2.1]; exact Nat.le_refl _,
+    by rw [h.2.2.2.2.2.2.2.2.2.2.2.2.1]; exact Nat.le_refl _, fun _ => h.2.2.1, ?_, ?_, ?_, ?_⟩
+  · rw [h.2.2.2.2.2.2.2.2.2.2.2.2.2.2.1, h.2.1]
+    cases d.removed <;> simp
+  · intro hne; exact absurd h.2.2.2.2.2.2.2.2.2.2.2.2.1 hne
+  · intro h1 h2; rw [h.2.1, h1] at h2; cases h2
+  · intro _ _; exact ⟨by rw [h.2.2.1]; assumption, h.2.2.2.2.2.2.2.2.2.2.2.2.1⟩
+
+theorem rall_setq (now : Int) (b : Bool) (d : Dt) : RAll now d (setQuiet b d) :=
+  ⟨rm_setq b d, rtrig_setq now b d, rwin_setq now b d, rev_setq now b d⟩
+
+theorem pw_stepAll (st : St) (op : Op) (hnd : (idsOf st.dts).Nodup) :
+    Pw (RAll op.now) (preModel st op) (step st op).1.dts :=
+  pw_step st op (stepRel_RAll op.now) (fun a b r => r.1.1) hnd (rall_setq op.now)
 
 theorem inEffect_V {now : Int} {sd : SDt} {d : Dt} (v : V sd d) :
     (sd.alive && sd.inEffect now) = (!d.removed && isInEffect now d) := by
@@ -943,9 +1051,9 @@ include hrel hnd
 theorem post_pw : Pw V (postDts sp op (stepObs st op).2) (step st op).1.dts := by
   unfold postDts
   apply pw_chain _ _ _ _ (pw_pre sp st op hrel.2.2.2.2.2.2 hnd)
-    (pw_step st op (stepRel_RM op.now) (fun a b r => r.1) hnd)
+    (pw_stepRM st op hnd)
   intro sd d d' _ hd hd' v r
-  exact after_V st op hnd hd hd' v r
+  exact after_V st op hnd hd hd' v r sp.paused
 
 theorem chkInDt_model : chkInDt sp op (stepObs st op).2 = true := by
   simp only [chkInDt, beq_iff_eq]
@@ -961,8 +1069,8 @@ omit hrel in
 /-- Facts about one known downtime `sd`, its model counterpart `d` before and `d'` after the operation. -/
 theorem triple_facts {sd : SDt} {d d' : Dt} (hd : d ∈ preModel st op) (hd' : d' ∈ (step st op).1.dts)
     (v : V sd d) (r : RAll op.now d d') :
-    V (SDt.after (stepObs st op).2 sd) d' ∧ (d'.removed = false → d.removed = false) := by
-  refine ⟨after_V st op hnd hd hd' v r.1, ?_⟩
+    V (SDt.after sp.paused (stepObs st op).2 sd) d' ∧ (d'.removed = false → d.removed = false) := by
+  refine ⟨after_V st op hnd hd hd' v r.1 sp.paused, ?_⟩
   intro hr'
   cases hr : d.removed with
   | false => rfl
@@ -972,9 +1080,9 @@ theorem chkWriteOnce_model : chkWriteOnce sp op (stepObs st op).2 = true := by
   simp only [chkWriteOnce, postDts]
   rw [zip_map_all]
   apply all_chain _ _ _ _ (pw_pre sp st op hrel.2.2.2.2.2.2 hnd)
-    (pw_step st op (stepRel_RAll op.now) (fun a b r => r.1.1) hnd)
+    (pw_stepAll st op hnd)
   intro sd d d' _ hd hd' v r
-  obtain ⟨va, hlive⟩ := triple_facts st op hnd hd hd' v r
+  obtain ⟨va, hlive⟩ := triple_facts sp st op hnd hd hd' v r
   simp only [Bool.or_eq_true, Bool.not_eq_true', Bool.and_eq_false_iff, bne_eq_false_iff_eq, beq_iff_eq]
   cases hr' : d'.removed with
   | true => left; left; rw [va.2.2.2.2.2.2.2.1, hr']; rfl
@@ -990,16 +1098,16 @@ theorem chkWindow_model : chkWindow sp op (stepObs st op).2 = true := by
   simp only [chkWindow, postDts]
   rw [zip_map_all]
   apply all_chain _ _ _ _ (pw_pre sp st op hrel.2.2.2.2.2.2 hnd)
-    (pw_step st op (stepRel_RAll op.now) (fun a b r => r.1.1) hnd)
+    (pw_stepAll st op hnd)
   intro sd d d' _ hd hd' v r
-  obtain ⟨va, hlive⟩ := triple_facts st op hnd hd hd' v r
+  obtain ⟨va, hlive⟩ := triple_facts sp st op hnd hd hd' v r
   simp only [Bool.or_eq_true, Bool.not_eq_true', Bool.and_eq_false_iff, bne_eq_false_iff_eq, beq_eq_false_iff_ne]
   cases hr' : d'.removed with
   | true => left; left; left; rw [va.2.2.2.2.2.2.2.1, hr']; rfl
   | false =>
     have hr := hlive hr'
     by_cases h0 : sd.trig = 0
-    · by_cases h1 : (SDt.after (stepObs st op).2 sd).trig = 0
+    · by_cases h1 : (SDt.after sp.paused (stepObs st op).2 sd).trig = 0
       · left; right; exact h1
       · right
         have hw := r.2.1.2.2.2.2.2.2 (by rw [← v.2.2.2.2.2.2.2.2.1 hr]; exact h0)
@@ -1013,7 +1121,7 @@ theorem chkWindowGone_model : chkWindowGone sp op (stepObs st op).2 = true := by
   simp only [chkWindowGone, postDts]
   rw [zip_map_all]
   apply all_chain _ _ _ _ (pw_pre sp st op hrel.2.2.2.2.2.2 hnd)
-    (pw_step st op (stepRel_RAll op.now) (fun a b r => r.1.1) hnd)
+    (pw_stepAll st op hnd)
   intro sd d d' _ hd hd' v r
   have h3 : evCount (stepObs st op).2 3 d.id = d'.trigEv - d.trigEv :=
     evCount_pair st op hnd 3 (Or.inr (Or.inr (Or.inl rfl))) hd hd' r.1.1
@@ -1035,7 +1143,7 @@ theorem gone_pair {sd : SDt} {d d' : Dt} (hd' : d' ∈ (step st op).1.dts) (v : 
 theorem chkRemovedEvent_model : chkRemovedEvent sp op (stepObs st op).2 = true := by
   simp only [chkRemovedEvent]
   apply all_chain _ _ _ _ (pw_pre sp st op hrel.2.2.2.2.2.2 hnd)
-    (pw_step st op (stepRel_RAll op.now) (fun a b r => r.1.1) hnd)
+    (pw_stepAll st op hnd)
   intro sd d d' _ hd hd' v r
   have h4 : evCount (stepObs st op).2 4 d.id = d'.remEv - d.remEv :=
     evCount_pair st op hnd 4 (Or.inr (Or.inr (Or.inr rfl))) hd hd' r.1.1
@@ -1045,14 +1153,15 @@ theorem chkRemovedEvent_model : chkRemovedEvent sp op (stepObs st op).2 = true :
   rw [v.1, h4, h5]
   cases d.removed <;> cases d'.removed <;> simp
 
-theorem chkEndOnce_model (hpe : ∀ d ∈ (step st op).1.dts, d.ends ≤ 1) :
+theorem chkEndOnce_model (hpe : ∀ d ∈ (step st op).1.dts, d.ends ≤ 1)
+    (hqi : ∀ d ∈ preModel st op, d.removed = false → d.quiet = st.paused) :
     chkEndOnce sp op (stepObs st op).2 = true := by
   simp only [chkEndOnce, postDts]
   rw [zip_map_all]
   apply all_chain _ _ _ _ (pw_pre sp st op hrel.2.2.2.2.2.2 hnd)
-    (pw_step st op (stepRel_RAll op.now) (fun a b r => r.1.1) hnd)
+    (pw_stepAll st op hnd)
   intro sd d d' _ hd hd' v r
-  obtain ⟨va, hlive⟩ := triple_facts st op hnd hd hd' v r
+  obtain ⟨va, hlive⟩ := triple_facts sp st op hnd hd hd' v r
   have h2 : evCount (stepObs st op).2 2 d.id = d'.ends - d.ends :=
     evCount_pair st op hnd 2 (Or.inr (Or.inl rfl)) hd hd' r.1.1
   have h3 : evCount (stepObs st op).2 3 d.id = d'.trigEv - d.trigEv :=
@@ -1078,7 +1187,10 @@ theorem chkEndOnce_model (hpe : ∀ d ∈ (step st op).1.dts, d.ends ≤ 1) :
         by_cases hp : 0 < d.trigger
         · by_cases hl : d.trigger ≤ op.now
           · right
-            have := e7 hr hr' hp hl; omega
+            have := e7 hr hr' hp hl
+            rw [quiet_pair st op hnd hd hd' r.1.1 hr hr', hqi d hd hr, ← hrel.2.2.2.2.2.1.2] at this
+            rw [this]
+            cases sp.paused <;> simp
           · left; right; rw [hst]; exact hl
         · left; left; right; rw [hst]; exact hp
   · cases hr : d.removed with
@@ -1140,6 +1252,7 @@ theorem chkDropped_model : chkDropped sp op (stepObs st op).2 = true := by
   | add p now => simp [dropped]
   | pump now => simp [dropped]
   | remove id u now => simp [dropped]
+  | setPaused b now => simp [dropped]
 
 omit hrel hnd in
 theorem find_alive_pw {sl : List SDt} {dl : List Dt} (h : Pw V sl dl) (i : Nat) :
@@ -1185,6 +1298,7 @@ theorem chkOwner_model : chkOwner sp op (stepObs st op).2 = true := by
   | add p now => rfl
   | result s te now => rfl
   | pump now => rfl
+  | setPaused b now => rfl
 
 theorem chkStartOnce_model (T : Int) (hs : SInv' T (step st op).1) : chkStartOnce sp op (stepObs st op).2 = true := by
   simp only [chkStartOnce]
@@ -1200,7 +1314,8 @@ end
 /-- The DowntimeEnd invariant is kept by every operation. -/
 theorem pend_step (st : St) (op : Op) (h0 : ∀ d ∈ st.dts, PEnd d) : ∀ d ∈ (step st op).1.dts, PEnd d := by
   intro d' hd'
-  rcases step_pred st op (stepRel_REnd op.now) (allc_trivial _) (opT_trivial st op) d' hd' with ⟨d, hd, r⟩ | ⟨p, _, r⟩
+  rcases step_pred st op (stepRel_REnd op.now) (allc_trivial _) (opT_trivial st op)
+    (fun b _ _ d _ => rend_setq b d) d' hd' with ⟨d, hd, r⟩ | ⟨p, _, r⟩
   · have pd := h0 d hd
     cases hr : d.removed with
     | true => rw [r.1 hr]; exact pd
@@ -1351,7 +1466,7 @@ theorem existence_known :
   | some d' =>
     obtain ⟨hm, hl⟩ := mem_of_findDt hf
     obtain ⟨sd, hs, d, _, v, r⟩ := chain_mem_right _ _ _ (pw_pre sp st op hrel.2.2.2.2.2.2 hnd)
-      (pw_step st op (stepRel_RAll op.now) (fun a b r => r.1.1) hnd) d' hm
+      (pw_stepAll st op hnd) d' hm
     apply List.any_eq_true.mpr
     refine ⟨sd, hs, ?_⟩
     have hr' := live_not_removed hl
@@ -1385,6 +1500,17 @@ theorem existence_model : existenceOK op (stepObs st op).2 sp.dts (preDts sp op 
     simp only [existenceOK, hA, Bool.true_and]
     have := keepP RKeep (pw_keep_result st s te now hnd) (fun a b r => r.1)
       (fun sd => !sd.alive || ((stepObs st (.result s te now)).2.dts.map (·.1)).contains sd.id) (by
+        intro sd d d' v r hd'
+        rw [v.1, ← r.1, hcont hd', r.2, v.2.2.2.2.2.2.2.1]
+        cases d.removed <;> rfl)
+    simpa [preDts] using this
+  | setPaused b now =>
+    simp only [existenceOK, hA, Bool.true_and]
+    have hk : Pw RKeep (preModel st (.setPaused b now)) (step st (.setPaused b now)).1.dts := by
+      simp only [preModel, step, setPausedOp]
+      exact pw_map_self _ (fun d => ⟨(setQuiet_eq b d).1, (setQuiet_eq b d).2.1⟩) _
+    have := keepP RKeep hk (fun a b r => r.1)
+      (fun sd => !sd.alive || ((stepObs st (.setPaused b now)).2.dts.map (·.1)).contains sd.id) (by
         intro sd d d' v r hd'
         rw [v.1, ← r.1, hcont hd', r.2, v.2.2.2.2.2.2.2.1]
         cases d.removed <;> rfl)
@@ -1486,6 +1612,18 @@ theorem stepRel_RArm (now : Int) : StepRel now (fun t => 0 < t) Base RArm where
     have := due_implies_expired now d hb.1 hb.2.1 (ha hr) hdue
     rw [this] at hexp; cases hexp
 
+theorem rarm_setq (b : Bool) (d : Dt) : RArm d (setQuiet b d) := by
+  have h := setQuiet_eq b d
+  refine ⟨h.1, ?_, ?_⟩
+  · intro hb; unfold Base at hb ⊢
+    rw [h.2.2.2.2.2.2.1, h.2.2.1, h.2.2.2.2.2.2.2.1]; exact hb
+  · intro _ ha hr
+    rw [h.2.1] at hr
+    have := ha hr
+    rw [h.2.2.2.2.2.2.2.2.2.2.2.2.2.2.2.1, this]
+    unfold cleanupPoint
+    rw [h.2.2.2.1, h.2.2.1, h.2.2.2.2.2.1, h.2.2.2.2.2.2.1]
+
 /-- The downtime an accepted `add` creates leaves the operation with its cleanup timer armed. -/
 theorem arm_new (st : St) (p : AddP) (now : Int) (hany : st.dts.any (fun d => d.id == p.id) = false) :
     ∀ d' ∈ (addOp st p now).1.dts, d'.id = p.id → Arm d' := by
@@ -1533,6 +1671,7 @@ theorem ainv_step (st : St) (op : Op) (hi : AInv st) (hnow : 0 < op.now) (hop : 
     | result s te now => exact hop.1
     | pump now => trivial
     | remove id u now => trivial
+    | setPaused b now => trivial
   constructor
   · cases op with
     | add p now => simp only [step, addOp]; split <;> exact hl
@@ -1543,8 +1682,10 @@ theorem ainv_step (st : St) (op : Op) (hi : AInv st) (hnow : 0 < op.now) (hop : 
       · simp only; split <;> omega
     | pump now => simp only [step, pumpOp]; split <;> exact hl
     | remove id u now => simp only [step, removeOp]; split <;> (try split) <;> exact hl
+    | setPaused b now => exact hl
   · intro d' hd'
-    rcases step_pred st op (stepRel_RArm op.now) hC hopT d' hd' with ⟨d, hd, r⟩ | ⟨p, hp, r⟩
+    rcases step_pred st op (stepRel_RArm op.now) hC hopT (fun b _ _ d _ => rarm_setq b d) d' hd'
+      with ⟨d, hd, r⟩ | ⟨p, hp, r⟩
     · exact ⟨r.2.1 (hall d hd).1, r.2.2 (hall d hd).1 (hall d hd).2⟩
     · have hb : Base (newDt st p op.now) := by
         cases op with
@@ -1554,6 +1695,7 @@ theorem ainv_step (st : St) (op : Op) (hi : AInv st) (hnow : 0 < op.now) (hop : 
         | result s te now => cases hp
         | pump now => cases hp
         | remove id u now => cases hp
+        | setPaused b now => cases hp
       refine ⟨r.2.1 hb, ?_⟩
       cases op with
       | add p' now' =>
@@ -1568,6 +1710,7 @@ theorem ainv_step (st : St) (op : Op) (hi : AInv st) (hnow : 0 < op.now) (hop : 
       | result s te now => cases hp
       | pump now => cases hp
       | remove id u now => cases hp
+      | setPaused b now => cases hp
 
 section
 variable (sp : SpecSt) (st : St) (op : Op) (hrel : RelS sp st) (hnd : (idsOf st.dts).Nodup)
@@ -1610,7 +1753,80 @@ theorem chkExpired_model (ha : AInv (step st op).1) : chkExpired sp op (stepObs 
   | add p now => rfl
   | result s te now => rfl
   | remove id u now => rfl
+  | setPaused b now => rfl
 
 end
+
+/-- The pause mirror of every existing downtime agrees with the checkable. -/
+def QInv (st : St) : Prop := ∀ d ∈ st.dts, d.removed = false → d.quiet = st.paused
+
+theorem qinv_step (st : St) (op : Op) (hi : QInv st) : QInv (step st op).1 := by
+  intro d' hd' hr'
+  cases op with
+  | setPaused b now =>
+    simp only [step, setPausedOp] at hd' ⊢
+    obtain ⟨y, _, rfl⟩ := List.mem_map.mp hd'
+    have hyr : y.removed = false := by rw [← (setQuiet_eq b y).2.1]; exact hr'
+    simp [setQuiet, hyr]
+  | add p now =>
+    have hp : (step st (.add p now)).1.paused = st.paused := by simp only [step, addOp]; split <;> rfl
+    rw [hp]
+    rcases step_pred st (.add p now) (stepRel_RQuiet now) (allc_trivial _) (opT_trivial st _)
+      (fun _ _ h => by cases h) d' hd' with ⟨d, hd, r⟩ | ⟨p', hp', r⟩
+    · rw [r.2.1]
+      apply hi d hd
+      cases h : d.removed with
+      | false => rfl
+      | true => rw [r.2.2 h] at hr'; cases hr'
+    · rw [r.2.1]; rfl
+  | result s te now =>
+    have hp : (step st (.result s te now)).1.paused = st.paused := by simp only [step, resultOp]; split <;> rfl
+    rw [hp]
+    rcases step_pred st (.result s te now) (stepRel_RQuiet now) (allc_trivial _) (opT_trivial st _)
+      (fun _ _ h => by cases h) d' hd' with ⟨d, hd, r⟩ | ⟨p', hp', _⟩
+    · rw [r.2.1]
+      apply hi d hd
+      cases h : d.removed with
+      | false => rfl
+      | true => rw [r.2.2 h] at hr'; cases hr'
+    · cases hp'
+  | pump now =>
+    have hp : (step st (.pump now)).1.paused = st.paused := by simp only [step, pumpOp]; split <;> rfl
+    rw [hp]
+    rcases step_pred st (.pump now) (stepRel_RQuiet now) (allc_trivial _) (opT_trivial st _)
+      (fun _ _ h => by cases h) d' hd' with ⟨d, hd, r⟩ | ⟨p', hp', _⟩
+    · rw [r.2.1]
+      apply hi d hd
+      cases h : d.removed with
+      | false => rfl
+      | true => rw [r.2.2 h] at hr'; cases hr'
+    · cases hp'
+  | remove id u now =>
+    have hp : (step st (.remove id u now)).1.paused = st.paused := by
+      simp only [step, removeOp]; split <;> (try split) <;> rfl
+    rw [hp]
+    rcases step_pred st (.remove id u now) (stepRel_RQuiet now) (allc_trivial _) (opT_trivial st _)
+      (fun _ _ h => by cases h) d' hd' with ⟨d, hd, r⟩ | ⟨p', hp', _⟩
+    · rw [r.2.1]
+      apply hi d hd
+      cases h : d.removed with
+      | false => rfl
+      | true => rw [r.2.2 h] at hr'; cases hr'
+    · cases hp'
+
+theorem qinv_pre (st : St) (op : Op) (hi : QInv st) : ∀ d ∈ preModel st op, d.removed = false → d.quiet = st.paused := by
+  intro d hd hr
+  cases op with
+  | add p now =>
+    simp only [preModel] at hd
+    split at hd
+    · exact hi d hd hr
+    · rcases List.mem_append.mp hd with h | h
+      · exact hi d h hr
+      · simp at h; subst h; rfl
+  | result s te now => exact hi d hd hr
+  | pump now => exact hi d hd hr
+  | remove id u now => exact hi d hd hr
+  | setPaused b now => exact hi d hd hr
 
 end Icinga.C05
